@@ -17,7 +17,7 @@ PROPS = {
                         "the clock is read before and after each implementation call; a case whose model "
                         "answer differs between the two readings is skipped as ambiguous"],
         "trusted_base": ["time.Time arithmetic assumed exact for |ts| < 2^60 (no int64 wrap in time.Unix)"],
-        "level_text": "Theorems c09_window / c09_rejected_after_lifetime / c09_rejected_if_future hold for every MAC function, "
+        "level_text": "c09_nonrefreshing_total_lifetime (a provider that cannot refresh: whatever the sequence of requests and validation answers, nothing later than login + cookie-expire + cookie-refresh is honoured, because of the expiry redeemCode's fallback gives the session), c09_redeem_fallbacks; Theorems c09_window / c09_rejected_after_lifetime / c09_rejected_if_future hold for every MAC function, "
                       "cookie string, clock value and non-zero lifetime of the Gallina model of encryption.Validate (skew regenerated "
                       "from source); c09_issue_time (the signed timestamp is the session's CreatedAt), c09_maxage / c09_maxage_seconds "
                       "(Max-Age of every part = configured lifetime in seconds), c09_store_ttl; the model is run against "
@@ -222,7 +222,7 @@ PROPS["C16"] = {
     "assumptions": ["the decision projection drops the fresh random parts of the login URL (state nonce, OIDC nonce, PKCE challenge) and "
                     "the request id"],
     "trusted_base": ["the projection function vDecision in the driver"],
-    "level_text": "c16_accessors, c16_redirect and c16_oauth_redirect_uri (2-safety: requests that differ only in X-Forwarded-Host/-Proto/-Uri "
+    "level_text": "c16_serve_request_ignores_forwarding (over the composition of Model/Compose.v: requests differing only in forwarded URI / client-IP header get the same answer with reverse-proxy off); c16_accessors, c16_redirect and c16_oauth_redirect_uri (2-safety: requests that differ only in X-Forwarded-Host/-Proto/-Uri "
                   "get the same redirect target and OAuth redirect URI when reverse-proxy is off), c16_bypass_path, c16_trusted_ip_off / "
                   "c16_trusted_ip_on, c16_cookie_domain are proved on the Gallina models of pkg/requests/util, the redirect director, "
                   "getOAuthRedirectURI, GetRequestPath and GetClientIP; pairs of real requests are compared on every run.",
@@ -263,7 +263,7 @@ PROPS["C12"] = {
                     "(one model step per store/lock/provider operation)",
                     "no lock-expiry step (the property's proviso); the expiry boundary is shown as a concrete trace (expiry_boundary)"],
     "trusted_base": ["the scheduler in the driver (a request blocked on a held lock is not schedulable)"],
-    "level_text": "c12_once is proved for ANY number of requests and ANY interleaving (inductive three-phase invariant over the transition "
+    "level_text": "c12_refresh_chain (against single-use refresh tokens a chain of refreshes of any length never presents a consumed token, whichever responses carry an ID token); c12_once is proved for ANY number of requests and ANY interleaving (inductive three-phase invariant over the transition "
                   "system of Model/Refresh.v): at most one refresh, none with a consumed token, every finished request served with the "
                   "refreshed session; c12_never_stale, c12_seq_never_stale, c12_run_reachable; the model is run on every schedule the Go "
                   "scheduler explores and the per-schedule outcome (refresh counts, each request's result and upstream token) compared.",
@@ -358,7 +358,7 @@ PROPS["C20"] = {
                     "fsnotify delivery is not modelled: the reload functions are called directly after rewriting the file",
                     "a deferred Unlock would be recorded at the defer site by the translator (none exists in the modelled functions)"],
     "trusted_base": ["translator go/xlate/sync.go (event programs from the Go AST)", "the Go race detector and scheduler for the stress run"],
-    "level_text": "c20_drf (for ANY event programs passing the static lock discipline, ANY number of goroutines and ANY interleaving: no race "
+    "level_text": "c20_serial_reloads_publish_final (reloads run by one event loop: once a reload that read the final contents has published, the published contents are the file's; refuted for overlapping reloads), c20_watcher_serial (every call of the reload callback in the regenerated pkg/watcher/watcher.go sits in the event loop); c20_drf (for ANY event programs passing the static lock discipline, ANY number of goroutines and ANY interleaving: no race "
                   "state is reachable; inductive invariant over the RWMutex transition system), c20_generated_well_locked (the programs "
                   "REGENERATED from htpasswd.go / validator.go on this run pass the discipline, by computation), c20_generated_drf, "
                   "c20_snapshot (one pointer read per validation; published maps never mutated), c20_failed_reload (one publication per reload, "
